@@ -185,6 +185,56 @@ fn vk_c20_lone_king_cannot_recapture() {
     assert!(got == (gain >= 0), "a lone king was allowed to recapture into an attacked square (or the capture was not scored as won)");
 }
 
+//@ obligation: C20.three_ply_exchange
+//@ tier: thorough
+//@ domain: complete
+//@ functions: engine/see.rs::see
+//@ timeout: 5400
+//@ mem_gb: 10
+//@ note: (MEASURED: accepted in 2132 s, 6.3 GB -- thorough tier) fully symbolic board, every shape-valid non-en-passant capture, threshold 0, on the positions where the exchange has at most three captures and no choice: exactly ONE enemy piece D (not the king) bears on the target square after the capture; once D has recaptured (D's square vacated) exactly ONE piece S of the capturing side bears on the square -- typically a slider uncovered by D's departure -- or none; and once S has recaptured no enemy piece bears on it any more.  Then the verdict is the minimax of that line: with gain g (captured value plus promotion gain), the value p of the piece now standing on the square and D's value d: no S => g - p >= 0; S present => min(g, g - p + d) >= 0 (the defender recaptures only if that does not lose more than it wins back)
+//@ assumes: table lookups == geometry (C07); meaning of the attack set: C01.attackers.all_exact
+#[kani::proof]
+#[kani::unwind(10)]
+//@@stubs-tables
+fn vk_c20_three_ply_exchange() {
+    let c = any_capture();
+    let board = &c.game.board;
+    let me = c.game.player;
+    let to = c.mv.dst();
+    let mut occ = board.occupancy();
+    occ ^= c.mv.src().bb();
+    occ |= to.bb();
+    // ply 2: exactly one enemy piece D, not a king, bears on the square
+    let defenders = movegen::all_attackers_of(board, to, occ) & occ & board.occupancy_for(me.other());
+    kani::assume(defenders.count() == 1);
+    let d_sq = defenders.lsb().single();
+    let d_kind = board.piece_at(d_sq).unwrap().kind;
+    kani::assume(d_kind != PieceKind::King);
+    // ply 3: after D has recaptured, at most one piece S of ours bears on the square (the mover is gone)
+    let occ2 = occ & !d_sq.bb();
+    let ours2 = movegen::all_attackers_of(board, to, occ2) & occ2 & board.occupancy_for(me) & !c.mv.src().bb();
+    kani::assume(ours2.count() <= 1);
+    let gain = val(c.captured.kind) + match c.promo { Some(p) => val(p.piece()) - 100, None => 0 };
+    let standing = match c.promo { Some(p) => val(p.piece()), None => val(c.mover.kind) };
+    let want = if ours2.is_empty() {
+        gain - standing >= 0
+    } else {
+        let s_sq = ours2.lsb().single();
+        // ply 4: nothing of theirs is left to take S (x-rays behind D or S included)
+        let occ3 = occ2 & !s_sq.bb();
+        let theirs3 = movegen::all_attackers_of(board, to, occ3) & occ3 & board.occupancy_for(me.other());
+        kani::assume(theirs3.is_empty());
+        // S is not our king stepping next to nothing: a king may recapture here because no enemy piece bears on the square
+        let after_three = gain - standing + val(d_kind);
+        (if after_three < gain { after_three } else { gain }) >= 0
+    };
+    let got = see(&c.game, c.mv, Eval(0));
+    kani::cover!(!ours2.is_empty() && gain < standing && gain - standing + val(d_kind) >= 0);
+    kani::cover!(!ours2.is_empty() && gain - standing + val(d_kind) < 0);
+    kani::cover!(ours2.is_empty());
+    assert!(got == want, "verdict differs from the minimax of a forced capture / recapture / recapture line");
+}
+
 //@ obligation: C20.canary.see
 //@ canary: true
 //@ timeout: 2400
